@@ -305,11 +305,11 @@ func verifH_C20_schema_refs() {
 	verifReach("end")
 }
 
-//verif:harness id=C20 tier=quick,thorough witness=end,loaded steps=20000000 depth=3000 bounds="structurally recursive documents: an untyped schema that contains itself (through properties / items / additionalProperties / allOf / not) with a default, an example or an enum; a callback whose operation uses the same callback again; a path item / operation reached through nested callbacks two levels deep; load, validate, serialise, internalise, serialise: no panic and no unbounded recursion"
+//verif:harness id=C20 tier=quick,thorough witness=end,loaded steps=20000000 depth=3000 bounds="structurally recursive documents: an untyped schema that contains itself (through properties / items / additionalProperties / allOf / not) with a default, an example or an enum; a callback whose operation uses the same callback again; a path item / operation reached through nested callbacks two levels deep; an inline callback whose path item is a reference back to its own path (directly or through a second path); load, validate, serialise, internalise, serialise: no panic and no unbounded recursion"
 func verifH_C20_recursive() {
 	verifEntryPoint = 0
 	var comps string
-	shape := verifChoose("shape", 8)
+	shape := verifChoose("shape", 10)
 	// known findings, identified by the input: unbounded recursion through a self-containing
 	// untyped schema with a value to check, and through a callback that uses itself
 	switch shape {
@@ -331,6 +331,12 @@ func verifH_C20_recursive() {
 		comps = `"callbacks":{"CB":{"{$request.body#/u}":{"post":{"responses":{"200":{"description":"d"}},"callbacks":{"in":{"{$request.body#/v}":{"post":{"responses":{"200":{"description":"d"}},"callbacks":{"again":{"$ref":"#/components/callbacks/CB"}}}}}}}}}}`
 	}
 	text := `{"openapi":"3.0.0","info":{"title":"t","version":"1"},"paths":{},"components":{` + comps + `}}`
+	switch shape {
+	case 8: // an inline callback whose path item is a reference back to the path that contains the operation
+		text = `{"openapi":"3.0.0","info":{"title":"t","version":"1"},"paths":{"/a":{"post":{"callbacks":{"cb":{"{$request.body#/u}":{"$ref":"#/paths/~1a"}}},"responses":{"200":{"description":"ok"}}}}}}`
+	case 9: // ... through a second path
+		text = `{"openapi":"3.0.0","info":{"title":"t","version":"1"},"paths":{"/a":{"post":{"callbacks":{"cb":{"{$request.body#/u}":{"$ref":"#/paths/~1b"}}},"responses":{"200":{"description":"ok"}}}},"/b":{"post":{"callbacks":{"cb":{"{$request.body#/u}":{"$ref":"#/paths/~1a"}}},"responses":{"200":{"description":"ok"}}}}}}`
+	}
 	kv, ki := "", ""
 	if shape <= 5 {
 		kv = "C20-recursive-schema-unbounded-recursion" // during Validate only
